@@ -106,7 +106,72 @@ const OPS: [&str; 30] = ["c0", "c1", "var", "var", "var", "not", "and", "and", "
     "ite", "ex", "all", "aln", "amn", "exn", "leq", "lt", "geq", "gt", "ceq", "fpor", "fpand", "model", "infer"];
 const OPS2: [&str; 4] = ["rett", "retf", "reta", "clean"];
 
+/// formula evaluations that share one `ParsedFormula` (one environment, one definition table):
+/// `{references}` are defined, evaluated, redefined and evaluated again; every evaluation is compared
+/// with the evaluation of a freshly parsed formula carrying the same definitions
+fn c13_defs(out: &mut dyn Write, tier: &str, rng: &mut Rng, st: &mut Stats) {
+    use crate::formula::*;
+    use rsbdd::parser::{ParsedFormula, ReferenceContents};
+    use rsbdd::NamedSymbol;
+    let pool = ["a", "b", "c", "d", "x1"];
+    let ordering: Vec<NamedSymbol> = pool.iter().enumerate().map(|(i, n)| NamedSymbol { name: Rc::new(n.to_string()), id: i }).collect();
+    let parse = |text: &str| -> Option<ParsedFormula> {
+        match parse_text(text.as_bytes(), Some(ordering.clone())) { Parsed::Ok(pf) => Some(pf), _ => None }
+    };
+    let hists = if tier == "thorough" { 3000 } else { 150 };
+    for h in 0..hists {
+        let mut term = |rng: &mut Rng, with_ref: Option<&str>| -> String {
+            let names: Vec<String> = pool[..4].iter().map(|s| s.to_string()).collect();
+            let gf = { let mut g = Gen { rng, names, allow_fix: false, big_consts: false, max_list: 3 }; let d = 1 + g.rng.below(2) as u32; g.gen(d, &std::collections::HashMap::new()) };
+            let t = Printer { rng, noise: false }.print(&gf);
+            match with_ref { Some(r) => format!("({{{}}} {} ({}))", r, rng.pick(&["&", "|", "^", "=>"]), t), None => format!("({})", t) }
+        };
+        let t1 = term(rng, None);
+        let main_text = match h % 6 {
+            0 => format!("{{r0}} {} {}", rng.pick(&["&", "|", "^", "=>", "<=>"]), t1),
+            1 => format!("{} {} ({{r0}} {} {{r1}})", t1, rng.pick(&["&", "|", "^"]), rng.pick(&["&", "|", "=>"])),
+            2 => format!("{} a # ({{r0}} {} {})", rng.pick(&["exists", "forall"]), rng.pick(&["&", "|"]), t1),
+            3 => format!("a & (({} x1 # ({{r0}} | (x1 & {}))) & {{r0}})", rng.pick(&["lfp", "gfp"]), t1),
+            4 => format!("[{{r0}}, {}, {{r1}}] >= {}", t1, 1 + rng.below(2)),
+            _ => format!("if {{r1}} then {{r0}} else {}", t1),
+        };
+        let pf = match parse(&main_text) { Some(p) => p, None => continue };
+        let mut defs: Vec<(String, String)> = Vec::new(); // current definitions: name -> text
+        let steps = 3 + rng.below(5);
+        for _ in 0..steps {
+            if rng.chance(1, 2) {
+                // (re)define r0 or r1; r0 may refer to r1, never the other way round
+                let which = if rng.chance(2, 3) { "r0" } else { "r1" };
+                let text = if which == "r0" && rng.chance(1, 3) { term(rng, Some("r1")) } else { term(rng, None) };
+                if let Some(d) = parse(&text) {
+                    pf.define(which, ReferenceContents::Syntax(d.bdd.clone()));
+                    defs.retain(|(n, _)| n != which);
+                    defs.push((which.to_string(), text));
+                    st.hit("defs.define");
+                }
+                continue;
+            }
+            crate::watchdog::enter(&main_text);
+            let res = match eval_guarded(&pf) { Ok(b) => show_ns(&b), Err(_) => "PANIC".to_string() };
+            // the same formula and definitions, parsed afresh
+            let fresh = match parse(&main_text) {
+                Some(fp) => {
+                    let mut ok = true;
+                    for (n, t) in &defs { match parse(t) { Some(d) => fp.define(n, ReferenceContents::Syntax(d.bdd.clone())), None => ok = false } }
+                    if ok { match eval_guarded(&fp) { Ok(b) => show_ns(&b), Err(_) => "PANIC".to_string() } } else { "PANIC".to_string() }
+                }
+                None => "PANIC".to_string(),
+            };
+            crate::watchdog::leave();
+            let defs_field = defs.iter().map(|(n, t)| format!("{}={}", hex(n.as_bytes()), parse(t).map(|d| ser_real(&d.bdd)).unwrap_or_default())).collect::<Vec<_>>().join(",");
+            writeln!(out, "C13|defs|{}|{}|{}|{}", ser_real(&pf.bdd), defs_field, res, fresh).unwrap();
+            st.hit("defs.eval");
+        }
+    }
+}
+
 pub fn c13(out: &mut dyn Write, tier: &str, rng: &mut Rng, st: &mut Stats) {
+    c13_defs(out, tier, rng, st);
     let hists = if tier == "thorough" { 2000 } else { 60 };
     for h in 0..hists {
         let env: BDDEnv<usize> = BDDEnv::new();
